@@ -7,6 +7,7 @@ import (
 	"math/rand"
 	"reflect"
 	"strings"
+	"unicode/utf16"
 	"unicode/utf8"
 
 	gojson "github.com/goccy/go-json"
@@ -23,7 +24,9 @@ import (
 // and fully \u-escaped spellings. Monitor "member-names": Marshal emits the same member names in
 // the same order as encoding/json.
 
-var c15Alphabet = []string{"A", "a", "B", "b", "1", "_", "é", "<"}
+// "/" is the one character of a valid tag name that has a two-character escape; U+10428 is a
+// lower-case letter outside the BMP (its \u spelling is a surrogate pair, its upper case U+10400).
+var c15Alphabet = []string{"A", "a", "B", "b", "1", "_", "é", "<", "/", string(rune(0x10428))}
 
 // all strings of length 1..n over the alphabet
 func c15Strings(n int) []string {
@@ -218,22 +221,34 @@ func asciiFold(s string) string {
 }
 
 func spellKey(key string, mode int) string {
+	raw := func(ch rune) string {
+		q, _ := stdjson.Marshal(string(ch))
+		// encoding/json escapes < as a \u escape: spell it raw
+		return strings.NewReplacer(`\`+"u003c", "<").Replace(string(q[1 : len(q)-1]))
+	}
 	if mode == 0 || !utf8.ValidString(key) {
 		q, _ := stdjson.Marshal(key)
-		// encoding/json escapes < as <: spell it raw for mode 0
 		return strings.NewReplacer(`\`+"u003c", "<").Replace(string(q))
 	}
 	var sb strings.Builder
 	sb.WriteByte('"')
 	for i, ch := range key {
-		if mode == 2 || i%2 == 0 {
-			if ch < 0x10000 {
-				fmt.Fprintf(&sb, "%su%04x", `\`, ch)
-				continue
+		switch {
+		case mode == 3:
+			// the two-character escape where JSON has one
+			if ch == '/' {
+				sb.WriteString(`\/`)
+			} else {
+				sb.WriteString(raw(ch))
 			}
+		case mode == 1 && i%2 == 1:
+			sb.WriteString(raw(ch))
+		case ch < 0x10000:
+			fmt.Fprintf(&sb, "%su%04x", `\`, ch)
+		default:
+			hi, lo := utf16.EncodeRune(ch)
+			fmt.Fprintf(&sb, "%su%04x%su%04X", `\`, hi, `\`, lo)
 		}
-		q, _ := stdjson.Marshal(string(ch))
-		sb.WriteString(strings.NewReplacer(`\`+"u003c", "<").Replace(string(q[1 : len(q)-1])))
 	}
 	sb.WriteByte('"')
 	return sb.String()
@@ -411,7 +426,10 @@ func init() {
 					sub++
 					continue
 				}
-				for mode, sp := range []string{"raw", "part-escaped", "full-escaped"} {
+				for mode, sp := range []string{"raw", "part-escaped", "full-escaped", "short-escaped"} {
+					if mode == 3 && !strings.Contains(key, "/") {
+						continue
+					}
 					doc := `{` + spellKey(key, mode) + `:1}`
 					c15Decode(c, sub, sh, doc, key, sp, false)
 					if mode != 1 {
